@@ -23,6 +23,8 @@ func runC16(ctx *Ctx) {
 	pv := newCorr("prevnext")
 	ls := newCorr("linkscore")
 	defer ls.run(ctx)
+	fol := newCorr("findoutlink")
+	defer fol.run(ctx)
 	pgi := newCorr("pageinfo")
 	defer pgi.run(ctx)
 	nsc := newCorr("numberscan")
@@ -41,7 +43,7 @@ func runC16(ctx *Ctx) {
 		}
 		d := parseDoc(c.HTML)
 		targets := anchorTargets(d.Root, page)
-		addLinkScoreCases(ls, rep, c.HTML, page, c)
+		addLinkScoreCases(ls, fol, rep, c.HTML, page, c)
 		addPageInfoCases(pgi, rep, c.HTML, page, c)
 		addNumberScanCase(nsc, rep, c.HTML, page, c)
 		for _, algo := range []distiller.PaginationAlgo{distiller.PrevNext, distiller.PageNumber} {
